@@ -71,8 +71,15 @@ def pred_ids(preds):
     """identity of predicates through the public API: evaluate each on a probe, read which user callables ran."""
     out = []
     for p in preds:
+        if not isinstance(p, BoboPredicate):
+            out.append('bare-' + type(p).__name__)       # not a predicate object at all
+            continue
         LOG.clear()
-        p.evaluate(PROBE, EMPTY)
+        try:
+            p.evaluate(PROBE, EMPTY)
+        except Exception as e:
+            out.append('raises-' + type(e).__name__)
+            continue
         out.append('+'.join(map(str, LOG)) if LOG else '?')
     return ','.join(out)
 
@@ -349,7 +356,7 @@ def builder_cases(ctx: Ctx, res: Result):
     for k in range(1, kmax + 1):                       # all sequences over the reduced alphabet
         for seq in itertools.product(red, repeat=k):
             yield {'name': 'p', 'singleton': k % 2 == 0, 'calls': renumber(seq)}
-    n_rand = 20000 if ctx.thorough else 2500           # seeded: longer sequences over the full alphabet
+    n_rand = 20000 if ctx.thorough else 6000           # seeded: longer sequences over the full alphabet
     for _ in range(n_rand):
         k = ctx.rng.randint(2, 7)
         seq = [ctx.rng.choice(full) for _ in range(k)]
